@@ -117,7 +117,14 @@ func (c *DSLContext) Roots() ([]Root, error) {
 	// Now sort top level DSLs
 	var sorted []Root
 	for _, r := range c.roots {
-		s := sortDependencies(c.roots, r, func(r Root) []Root { return rootDeps[r.EvalName()] })
+		s := sortDependencies(c.roots, r, func(r Root) []Root {
+			if deps, ok := rootDeps[r.EvalName()]; ok {
+				return deps
+			}
+			// a dependency that is not registered (yet) has no flattened list:
+			// follow its own dependencies so that they still come first
+			return r.DependsOn()
+		})
 		for _, s := range s {
 			found := false
 			for _, r := range sorted {
